@@ -385,6 +385,29 @@ func (w workload) ingress() *netv1beta1.Ingress {
 	return ing
 }
 
+// workloadObject builds the typed API object of a harness-side workload.
+func workloadObject(kind string, w workload) kobj {
+	switch kind {
+	case "service":
+		return w.service()
+	case "replicationcontroller":
+		return w.rc()
+	case "replicaset":
+		return &appsv1.ReplicaSet{ObjectMeta: buildWorkloadMeta(w), Spec: appsv1.ReplicaSetSpec{Selector: w.Sel.build(), Template: w.podTemplate()}}
+	case "deployment":
+		return &appsv1.Deployment{ObjectMeta: buildWorkloadMeta(w), Spec: appsv1.DeploymentSpec{Selector: w.Sel.build(), Template: w.podTemplate()}}
+	case "daemonset":
+		return &appsv1.DaemonSet{ObjectMeta: buildWorkloadMeta(w), Spec: appsv1.DaemonSetSpec{Selector: w.Sel.build(), Template: w.podTemplate()}}
+	case "statefulset":
+		return &appsv1.StatefulSet{ObjectMeta: buildWorkloadMeta(w), Spec: appsv1.StatefulSetSpec{Selector: w.Sel.build(), Template: w.podTemplate()}}
+	case "job":
+		return &batchv1.Job{ObjectMeta: buildWorkloadMeta(w), Spec: batchv1.JobSpec{Selector: w.Sel.build(), Template: w.podTemplate()}}
+	case "ingress":
+		return w.ingress()
+	}
+	panic("unknown workload kind " + kind)
+}
+
 func buildWorkloadFilter(kind string, ws []workload) filter.ComparableFilter {
 	switch kind {
 	case "service":
